@@ -85,6 +85,8 @@ def escapes(p: Path, e: Event, *, value_kinds: Optional[Dict[str, str]] = None) 
                 continue   # a declared pattern was compiled at declaration time (C10 checks that)
             why = f"{op}({pat.key()[:30] if pat is not None else ''}) with an unchecked pattern"
         elif op in ("builtins.round", "builtins.int", "math.floor", "math.ceil", "math.trunc"):
+            if op == "builtins.round" and len(operands) >= 2:
+                continue        # round(x, ndigits) returns a float and is total (inf/nan pass through)
             a = operands[0] if operands else None
             ak = kind(a) if a is not None else None
             if ak in ("int", "bool"):
@@ -135,6 +137,8 @@ def escapes(p: Path, e: Event, *, value_kinds: Optional[Dict[str, str]] = None) 
             if isinstance(b, Const) and b.value:
                 continue
             why = "division by a possibly zero value"
+        elif op == "sorted":
+            why = f"sorted() over elements of unknown kinds ({operands[0].key()[:50]}): unorderable members raise TypeError"
         elif op in ("min", "max"):
             why = f"{op}() of a possibly empty iterable"
         elif op == "accept":
